@@ -844,6 +844,9 @@ class Glob(Generic[AnyStr]):
                     if this.dir_only:
                         # Glob these directories if they exists
                         for start, is_dir in results:
+                            if not is_dir:
+                                # A directory was asked for (`name/...`); a plain file or dangling link is no base.
+                                continue
                             rest = pattern[1:]
                             if rest:
                                 this = rest.pop(0)
